@@ -33,6 +33,8 @@ Bases == {Base, MirrorBase, FrozenBase, RichBase}
 \* swept on its own over every base (WindowSweep).
 TsCore == {TsAbsent, Ts(1, 1), Ts(1, 2), Ts(2, 0), Ts(1, 3)}
 WindowCore == [start : TsCore, limit : TsCore]
+\* in the triples: absent, two instants inside one second, an invalid timestamp
+WindowSlim == [start : TsCore \ {Ts(2, 0)}, limit : TsCore \ {Ts(2, 0)}]
 Groups == <<KeyGroup, WindowCore, DelayGroup, RejectGroup, EkuGroup, StorageGroup, IdentGroup>>
 
 \* The case set: every pair of field groups in full product with the rest as in a base, and some triples.
@@ -44,13 +46,13 @@ Triple(b, G1, G2, G3) == \E x \in G1, y \in G2, z \in G3 : c = Override(b, x @@ 
 IsSingleCase ==
   \/ \E b \in Bases, p \in GroupPairs : \E x \in Groups[p[1]], y \in Groups[p[2]] : c = Override(b, x @@ y)
   \/ \E b \in Bases, x \in WindowGroup : c = Override(b, x)                                      \* WindowSweep
-  \/ Triple(Base, KeyGroup, WindowCore, DelayGroup)
+  \/ Triple(Base, KeyGroup, WindowSlim, DelayGroup)
   \/ Triple(Base, KeyGroup, StorageGroup, RejectEku)
   \/ Triple(Base, KeyGroup, StorageGroup, IdentGroup)
   \/ Triple(Base, KeyGroup, IdentGroup, RejectEku)
   \/ Triple(Base, KeyGroup, DelayGroup, StorageGroup)
-  \/ Triple(Base, KeyGroup, WindowCore, StorageGroup)
-  \/ Triple(RichBase, WindowCore, DelayGroup, StorageGroup)
+  \/ Triple(Base, KeyGroup, WindowSlim, StorageGroup)
+  \/ Triple(RichBase, WindowSlim, DelayGroup, StorageGroup)
 
 AllFields == DOMAIN Base
 TypeOKSingle == DOMAIN c = AllFields
